@@ -27,10 +27,14 @@ Definition spec_scores (c : case) : list Q :=
   map (shapley (c_units c) (v_knn (c_k c) (c_classes c) (c_rows c) (c_labels c) (c_dists c) (c_ucols c) (c_nulls c)))
       (seq 0 (c_units c)).
 
+Definition spec_scores_sorted (c : case) : list Q :=
+  map (shapley (c_units c) (v_knn_sorted (c_k c) (c_classes c) (c_rows c) (c_labels c) (c_dists c) (c_ucols c) (c_nulls c)))
+      (seq 0 (c_units c)).
+
 Definition check (c : case) : bool * bool * bool :=
   let m := model_scores c in let s := spec_scores c in
   ( close_list (c_tol c) (i_scores c) m,
-    close_list (c_tol c) (i_scores c) s
+    close_list (c_tol c) (i_scores c) s && close_list (c_tol c) (i_scores c) (spec_scores_sorted c)
       && match i_bruteforce c with Some b => close_list (c_tol c) (i_scores c) b | None => true end,
     eqb_qs m s ).
 
